@@ -373,7 +373,7 @@ def _desugar(k):
 
 def jobs(tier):
     q = tier == "quick"
-    T = 400 if q else 1500
+    T = 600 if q else 1500
     js = []
     for m in range(9):
         js.append({"name": f"items[m={m}]", "fn": "items", "params": {"m": m, "omax": 7 if q else 12}, "timeout": T, "per_path": 120})
